@@ -2723,6 +2723,11 @@ class Pos(Unaryop):
     _operator_repr = "+"
 
 
+def _is_strictly_increasing(partitions):
+    partitions = list(partitions)
+    return all(a < b for a, b in zip(partitions, partitions[1:]))
+
+
 class Partitions(Expr):
     """Select one or more partitions"""
 
@@ -2733,6 +2738,9 @@ class Partitions(Expr):
         return self.frame._meta
 
     def _divisions(self):
+        if not _is_strictly_increasing(self.partitions):
+            # reordered or repeated partitions have no sorted divisions
+            return (None,) * (len(self.partitions) + 1)
         divisions = []
         for part in self.partitions:
             divisions.append(self.frame.divisions[part])
@@ -2805,6 +2813,9 @@ class PartitionsFiltered(Expr):
             return full_divisions
 
         # Specific case: Specific partitions were selected
+        if not _is_strictly_increasing(self._partitions):
+            # reordered or repeated partitions have no sorted divisions
+            return (None,) * (len(self._partitions) + 1)
         new_divisions = []
         for part in self._partitions:
             new_divisions.append(full_divisions[part])
